@@ -215,6 +215,7 @@ package abi
 //@ func EFIHOBGenericHeader.WriteTo
 //@   assigns nothing
 //@   modifies wrLen, wrLog
+//@   ensures[C05] wrNeverFails(ref(w)) ==> err == nil
 //@   sweep[C08,C18] nil index slice div typeassert panic makeslice nilmap
 //@   ensures[C18,C05] err == nil ==> result0 == 8 && wrLen[ref(w)] == old(wrLen)[ref(w)] + 8 && hobHdrAt(wrLog[ref(w)], old(wrLen)[ref(w)], h.HobType, h.HobLength)
 //@   ensures[C18,C05] err == nil ==> forall(j, j < old(wrLen)[ref(w)] ==> wrLog[ref(w)][j] == old(wrLog)[ref(w)][j])
@@ -224,6 +225,7 @@ package abi
 //@ func EFIHOBHandoffInfoTable.WriteTo
 //@   assigns nothing
 //@   modifies wrLen, wrLog
+//@   ensures[C05] wrNeverFails(ref(w)) ==> err == nil
 //@   sweep[C08,C18] nil index slice div typeassert panic makeslice nilmap
 //@   ensures[C18,C05] err == nil ==> result0 == 56 && wrLen[ref(w)] == old(wrLen)[ref(w)] + 56 && hobHdrAt(wrLog[ref(w)], old(wrLen)[ref(w)], t.Header.HobType, t.Header.HobLength)
 //@   ensures[C18,C05] err == nil ==> lg32(wrLog[ref(w)], old(wrLen)[ref(w)] + 8) == t.Version && lg32(wrLog[ref(w)], old(wrLen)[ref(w)] + 12) == t.BootMode
@@ -236,6 +238,7 @@ package abi
 //@ func EFIHOBResourceDescriptor.WriteTo
 //@   assigns nothing
 //@   modifies wrLen, wrLog
+//@   ensures[C05] wrNeverFails(ref(w)) ==> err == nil
 //@   sweep[C08,C18] nil index slice div typeassert panic makeslice nilmap
 //@   ensures[C18,C05] err == nil ==> result0 == 48 && wrLen[ref(w)] == old(wrLen)[ref(w)] + 48 && hobHdrAt(wrLog[ref(w)], old(wrLen)[ref(w)], d.Header.HobType, d.Header.HobLength)
 //@   ensures[C18,C05] err == nil ==> lg32(wrLog[ref(w)], old(wrLen)[ref(w)] + 8) == d.Owner.Data1 && lg16(wrLog[ref(w)], old(wrLen)[ref(w)] + 12) == d.Owner.Data2 && lg16(wrLog[ref(w)], old(wrLen)[ref(w)] + 14) == d.Owner.Data3
